@@ -212,6 +212,30 @@ pub fn run(seed: u64, n: usize, out: &str) -> Result<()> {
     writeln!(f, "{}", json!({"f": "props", "empty": empty, "p": pj(&p), "inlineLen": inline.as_ref().map(|c| c.len()).unwrap_or(0),
       "packedLen": packed.as_ref().map(|c| c.len()).unwrap_or(0), "inline": back_inline, "packed": back_packed, "via": via}))?;
   }
+  // what the encoder accepts, the decoder must accept: titles made of r incompressible letters followed by a
+  // compressible run, swept through the 30:1 compression-ratio limit in steps well below 1/30 of the length
+  for r in [400usize, 1500] {
+    let head: String = (0..r).map(|_| (b'a' + rng.gen_range(0..26u8)) as char).collect();
+    let mut z = 12 * r;
+    while z <= 40 * r {
+      let title = format!("{head}{}", "q".repeat(z));
+      let p = Properties { gallery: Vec::new(), attributes: Attributes { title: Some(title), traits: Traits { items: Vec::new() } }, txids: Vec::new() };
+      match Inscription::new(ord::Chain::Regtest, true, None, None, None, vec![], Some(path.clone()), None, p.clone(), None) {
+        Ok(i) => {
+          let back = ord::verif::inscription_properties(&i);
+          let raw = ord::verif::properties_to_inline_cbor(&p).map(|c| c.len()).unwrap_or(0);
+          writeln!(f, "{}", json!({"f": "ratio", "st": "encoded", "rawLen": raw, "encLen": i.properties.as_ref().map(|x| x.len()).unwrap_or(0),
+            "encoding": i.property_encoding.clone().map(|e| String::from_utf8_lossy(&e).to_string()).unwrap_or("none".into()),
+            "same": back == p, "backTitleLen": back.attributes.title.map(|t| t.len() as i64).unwrap_or(-1)}))?;
+        }
+        Err(e) => {
+          writeln!(f, "{}", json!({"f": "ratio", "st": "refused", "rawLen": r + z, "encLen": 0, "encoding": "none", "same": true, "backTitleLen": -1,
+            "err": e.to_string().chars().take(80).collect::<String>()}))?;
+        }
+      }
+      z += r / 5;
+    }
+  }
   // bounded decompression
   for size in [10usize, 1000, 20_000, 200_000, 3_999_000, 4_000_000, 4_000_001, 6_000_000, 30_000_000] {
     for fill in [0u8, 1] {
